@@ -3,7 +3,9 @@
 Read from the LIVE modules by introspection:
   * `Token.precedences` (excelformula.py:130-150): operator key -> (precedence, associativity == 'left');
   * `OperatorNode.op_map` (excelformula.py:268-273): Excel operator -> Python operator spelling;
-  * `FunctionNode.func_map` (excelformula.py:393-407): lower-cased Excel function name -> python name.
+  * `FunctionNode.func_map` (excelformula.py:393-407): lower-cased Excel function name -> python name;
+  * the names of the dedicated emitters `FunctionNode.func_*` (theorem `C02_handlers`: a new handler is a function
+    whose emission is no longer the plain call the model and `C02_emit` speak about).
 `Pycel.Formula.precOf` (the model of `Token.precedence`) looks operators up in `precTable`, and the theorems
 `C02_levels`, `C02_left_assoc`, `prec_spec` in Props/C02.lean / Lemmas/FormulaParse.lean are proved by evaluation of
 these definitions, so a changed table (say '^' made right-associative, or '%' moved below '^') breaks the proofs.
@@ -43,5 +45,9 @@ def prec():
     body += ']\n\n'
     body += '/-- excelformula.ADDR_FUNCS_NAMES -/\n'
     body += 'def addrFuncs : List (List Char) := [' + ', '.join(_chars(n) for n in excelformula.ADDR_FUNCS_NAMES) + ']\n'
+    handlers = sorted(n[5:] for n in dir(excelformula.FunctionNode)
+                      if n.startswith('func_') and callable(getattr(excelformula.FunctionNode, n)))
+    body += ('\n/-- the function names with a dedicated emitter `FunctionNode.func_<name>` (dir(FunctionNode), callables) -/\n')
+    body += 'def funcHandlers : List (List Char) := [' + ', '.join(_chars(n) for n in handlers) + ']\n'
     body += '\nend Pycel.Gen\n'
     return body
